@@ -74,10 +74,10 @@ structure RsvObj where
   pod    : PodObj
 deriving Repr
 
-/-- FilterFunc = IsObjValidActiveReservation(obj): `reservation, _ := obj.(*Reservation)` — every shape but the typed
-    object gives nil, and ValidateReservation(nil) is an error.  NOTE: the filter runs BEFORE
-    ReservationToPodEventHandler.OnDelete, so a tombstone never reaches the tombstone case there. -/
-def rsvFilter (sh : Shape) (r : RsvObj) : Bool := decodeObj sh && r.valid && r.active
+/-- FilterFunc = IsObjValidActiveReservation(obj): a `cache.DeletedFinalStateUnknown` BY VALUE is unwrapped first, then
+    `reservation, _ := obj.(*Reservation)` — every other shape gives nil, and ValidateReservation(nil) is an error.
+    The SAME filter stands in front of OnAdd / OnUpdate / OnDelete (cache.FilteringResourceEventHandler). -/
+def rsvFilter (sh : Shape) (r : RsvObj) : Bool := decodeDelete sh && r.valid && r.active
 
 inductive REv where
   | rsvAdd (sh : Shape) (p : Nat) (r : RsvObj)
@@ -85,17 +85,19 @@ inductive REv where
   | rsvDelete (sh : Shape) (p : Nat) (r : RsvObj)
 deriving Repr
 
-/-- FilteringResourceEventHandler in front of ReservationToPodEventHandler in front of the pod handlers -/
+/-- FilteringResourceEventHandler in front of ReservationToPodEventHandler in front of the pod handlers.
+    ReservationToPodEventHandler.OnAdd / OnUpdate take the typed object only (`obj.(*Reservation)`), OnDelete has the
+    tombstone case; FilteringResourceEventHandler.OnUpdate turns an update that crosses the filter into an add / delete. -/
 def revOps : REv → List Op
-  | .rsvAdd sh p r => if rsvFilter sh r then updatePodOps p none r.pod else []
+  | .rsvAdd sh p r => if rsvFilter sh r && decodeObj sh then updatePodOps p none r.pod else []
   | .rsvUpdate so sn p old new =>
     let newer := rsvFilter sn new
     let older := rsvFilter so old
-    if newer && older then updatePodOps p (some old.pod) new.pod
-    else if newer then updatePodOps p none new.pod
-    else if older then deletePodOps p old.pod
+    if newer && older then (if decodeObj so && decodeObj sn then updatePodOps p (some old.pod) new.pod else [])
+    else if newer then (if decodeObj sn then updatePodOps p none new.pod else [])
+    else if older then (if decodeDelete so then deletePodOps p old.pod else [])
     else []
-  | .rsvDelete sh p r => if rsvFilter sh r then deletePodOps p r.pod else []
+  | .rsvDelete sh p r => if rsvFilter sh r && decodeDelete sh then deletePodOps p r.pod else []
 
 /-! ### (b) read-only steps -/
 
@@ -209,7 +211,7 @@ inductive RoStep where
   | addPod (p : Nat) (rsv : Option Nat)
   | restore (matched unmatched : List (Nat × List Nat))
   | filter (minors : Option (List Nat)) (a : AllocReq)
-  | opaque     -- a read-only step whose RESULT is not modelled (PreFilter; Filter through tryAllocateFromReusable)
+  | unmodelled -- a read-only step whose RESULT is not modelled (PreFilter; Filter through tryAllocateFromReusable)
 deriving Repr
 
 /-- what a cycle carries besides the cache -/
@@ -226,7 +228,7 @@ def roStep (sc : TState × Cycle) : RoStep → TState × Cycle
   | .addPod p rsv => let (s', d') := dryAddPod sc.1 sc.2.dry p rsv; (s', { sc.2 with dry := d' })
   | .restore m u => let (s', r) := restore sc.1 m u; (s', { sc.2 with restored := some r })
   | .filter ms a => let (s', v) := dryFilter sc.1 sc.2.dry ms a; (s', { sc.2 with verdicts := sc.2.verdicts ++ [v] })
-  | .opaque => sc
+  | .unmodelled => sc
 
 def roRun (s : TState) (c : Cycle) (steps : List RoStep) : TState × Cycle := steps.foldl roStep (s, c)
 
